@@ -205,6 +205,23 @@ func runCRDTArm(c *core.Ctx) {
 			return true
 		})
 	}
+	// outside broadcast the budget is only ever (re)armed, never lowered: lowering it elsewhere cancels the
+	// delivery still owed for an earlier committed section
+	for _, fn := range e.Ix.MethodsOf(a.t) {
+		if fn.Obj.Name() == "broadcast" {
+			continue
+		}
+		info := fn.Pkg.Info
+		ast.Inspect(fn.Body(), func(m ast.Node) bool {
+			if _, ok := fieldIsAssigned(info, m, a.count); ok && !isArm(info, m) {
+				c.Bad("crdt."+fn.Obj.Name()+":lowers-broadcast-budget", m.Pos(), "needBroadcastCount is assigned something other than len(peerIds) outside broadcast: the budget is shared by all committed sections, so this cancels broadcasts still owed for an earlier commit and that update never reaches the peers")
+			}
+			if id, ok := m.(*ast.IncDecStmt); ok && an.SelectedField(info, id.X) == a.count {
+				c.Bad("crdt."+fn.Obj.Name()+":lowers-broadcast-budget", m.Pos(), "needBroadcastCount is decremented outside broadcast")
+			}
+			return true
+		})
+	}
 	// the budget is only ever decremented after a successful call
 	bc := mustMethod(c, e, an.PkgResources, "crdt", "broadcast")
 	if bc != nil {
